@@ -21,12 +21,16 @@ ForkOpts == {[dl |-> d, stop |-> NoStop, nb |-> FALSE, rin |-> 0, rout |-> 0, re
 \* a deadline an hour away (in milliseconds: beyond 2^31 microseconds): the default policy waits for the child, it sends nothing
 FarOpts == {[dl |-> 3600000, stop |-> NoStop, nb |-> FALSE, rin |-> 0, rout |-> 0, rerr |-> 0, input |-> -1,
              term |-> t, self |-> TRUE, prog |-> "/bin/c"] : t \in {0, 2}}
+\* nothing piped (all three streams discarded): with a caller that runs without stdin / stdout the exit handle is then the
+\* first descriptor the library creates that it keeps
+DiscOpts == {[dl |-> d, stop |-> NoStop, nb |-> FALSE, rin |-> R_DISCARD, rout |-> R_DISCARD, rerr |-> R_DISCARD, input |-> -1,
+              term |-> t, self |-> TRUE, prog |-> "/bin/c"] : d \in DlOpts, t \in {0, 2}}
 FailOpts == {[dl |-> 0, stop |-> NoStop, nb |-> FALSE, rin |-> 0, rout |-> 0, rerr |-> 0, input |-> -1,
               term |-> 0, self |-> FALSE, prog |-> "/nonexistent"]}
 
 NextL ==
   \/ ncalls = 0 /\ New(1)
-  \/ ncalls = 1 /\ \E o \in StartOpts \cup FailOpts \cup ForkOpts : Start(1, o)
+  \/ ncalls = 1 /\ \E o \in StartOpts \cup FailOpts \cup ForkOpts \cup DiscOpts : Start(1, o)
   \/ ncalls = 2 /\ life[1] = "run" /\ (Wait(1, 0) \/ Terminate(1))
   \/ ncalls >= 1 /\ Destroy(1)
   \/ Destroy(0)
